@@ -630,6 +630,13 @@ class GateSim(PeerSim):
                     bad("no-logout-reason", "session dropped without a Logout stating the reason although CompIDs were correct")
             self.probe("defective_frame_dropped_session")
             return
+        if defect == "seq_low" and t == "4gf":
+            # a GapFill is exempt from the too-low disconnect only in so far as a duplicate of an earlier one is
+            # ignored: whatever its NewSeqNo says, a too-low frame never moves the inbound counter
+            if lv.next_num_in != cur["E"]:
+                bad("too-low-gapfill-counted", f"inbound counter {cur['E']} -> {lv.next_num_in}")
+            self.probe("too_low_gapfill_ignored")
+            return
         if not cur["complete"] and defect in ("none", "seq_high"):
             # before the Logon exchange completed: nothing but Logon/Logout is acted upon (global invariants
             # already cover callbacks / ACTIVE / reply frames); the acceptor drops on a non-Logon first frame
